@@ -1017,5 +1017,5 @@ pub fn run(ctx: &mut Ctx) {
     let t = ctx.tier;
     ctx.run_enumerated::<ErrorShapes>(ErrorShapes::enumeration(t), false);
     ctx.run_enumerated::<Shapes>(Shapes::enumeration(t), true);
-    ctx.run_part::<Chains>(t.pick(40_000, 2_000_000));
+    ctx.run_part::<Chains>(t.pick(40_000, 12_000_000));
 }
